@@ -86,9 +86,9 @@ var (
 )
 
 func Var(name string, s Sort) *Term { return mk("var", s, name, nil, 0) }
-func IntConst(v int64) *Term       { return mk("int", SInt, "", big.NewInt(v), 0) }
-func BigConst(v *big.Int) *Term    { return mk("int", SInt, "", new(big.Int).Set(v), 0) }
-func UintConst(v uint64) *Term     { return mk("int", SInt, "", new(big.Int).SetUint64(v), 0) }
+func IntConst(v int64) *Term        { return mk("int", SInt, "", big.NewInt(v), 0) }
+func BigConst(v *big.Int) *Term     { return mk("int", SInt, "", new(big.Int).Set(v), 0) }
+func UintConst(v uint64) *Term      { return mk("int", SInt, "", new(big.Int).SetUint64(v), 0) }
 func FPConst(f float64) *Term {
 	b := math.Float64bits(f)
 	if f != f {
@@ -103,7 +103,9 @@ func Bool(b bool) *Term {
 	return False
 }
 
-func (t *Term) IsConst() bool { return t.Op == "int" || t.Op == "fp" || t.Op == "true" || t.Op == "false" }
+func (t *Term) IsConst() bool {
+	return t.Op == "int" || t.Op == "fp" || t.Op == "true" || t.Op == "false"
+}
 func (t *Term) IsTrue() bool  { return t == True }
 func (t *Term) IsFalse() bool { return t == False }
 
@@ -254,7 +256,67 @@ func Eq(a, b *Term) *Term {
 
 // ---- integers ----
 
-func intBin(op string, a, b *Term) *Term { return mk(op, SInt, "", nil, 0, a, b) }
+func intBin(op string, a, b *Term) *Term {
+	if op == "+" || op == "*" {
+		a, b = canon(a, b)
+	}
+	return mk(op, SInt, "", nil, 0, a, b)
+}
+
+// canon orders the operands of a commutative operator: constants first, then by id.
+func canon(a, b *Term) (*Term, *Term) {
+	ac, bc := a.IsConst(), b.IsConst()
+	switch {
+	case ac && !bc:
+		return a, b
+	case bc && !ac:
+		return b, a
+	case a.id > b.id:
+		return b, a
+	}
+	return a, b
+}
+
+// divExact returns t/c when t is syntactically a multiple of the constant c.
+func divExact(t *Term, c *big.Int) (*Term, bool) {
+	switch t.Op {
+	case "int":
+		q, r := new(big.Int).QuoRem(t.I, c, new(big.Int))
+		if r.Sign() == 0 {
+			return BigConst(q), true
+		}
+	case "*":
+		for k := 0; k < 2; k++ {
+			if t.Args[k].Op == "int" {
+				q, r := new(big.Int).QuoRem(t.Args[k].I, c, new(big.Int))
+				if r.Sign() == 0 {
+					return Mul(BigConst(q), t.Args[1-k]), true
+				}
+			}
+		}
+	case "+":
+		if len(t.Args) == 2 {
+			a, ok1 := divExact(t.Args[0], c)
+			b, ok2 := divExact(t.Args[1], c)
+			if ok1 && ok2 {
+				return Add(a, b), true
+			}
+		}
+	case "-":
+		if len(t.Args) == 2 {
+			a, ok1 := divExact(t.Args[0], c)
+			b, ok2 := divExact(t.Args[1], c)
+			if ok1 && ok2 {
+				return Sub(a, b), true
+			}
+		} else if len(t.Args) == 1 {
+			if a, ok := divExact(t.Args[0], c); ok {
+				return Neg(a), true
+			}
+		}
+	}
+	return nil, false
+}
 
 func Add(a, b *Term) *Term {
 	if a.Op == "int" && b.Op == "int" {
@@ -306,6 +368,11 @@ func Neg(a *Term) *Term {
 func TDiv(a, b *Term) *Term {
 	if a.Op == "int" && b.Op == "int" && b.I.Sign() != 0 {
 		return BigConst(new(big.Int).Quo(a.I, b.I))
+	}
+	if b.Op == "int" && b.I.Sign() != 0 {
+		if q, ok := divExact(a, b.I); ok {
+			return q
+		}
 	}
 	if b.Op == "int" && b.I.Sign() > 0 {
 		// x>=0: div x b ; x<0: -(div (-x) b)
@@ -378,6 +445,7 @@ func FAdd(a, b *Term) *Term {
 	if r, ok := fpFold2("fp.add", a, b); ok {
 		return r
 	}
+	a, b = canon(a, b)
 	return mk("fp.add", SFP, "", nil, 0, a, b)
 }
 func FSub(a, b *Term) *Term {
@@ -390,17 +458,31 @@ func FMul(a, b *Term) *Term {
 	if r, ok := fpFold2("fp.mul", a, b); ok {
 		return r
 	}
+	if a.Op == "fp" && a.FloatVal() == 1 {
+		return b
+	}
+	if b.Op == "fp" && b.FloatVal() == 1 {
+		return a
+	}
+	if a.Op == "fp" && a.FloatVal() == -1 {
+		return FNeg(b)
+	}
+	if b.Op == "fp" && b.FloatVal() == -1 {
+		return FNeg(a)
+	}
 	if Abstract {
-		if a.id > b.id {
-			a, b = b, a
-		}
+		a, b = canon(a, b)
 		return mk("uf", SFP, "fmul", nil, 0, a, b)
 	}
+	a, b = canon(a, b)
 	return mk("fp.mul", SFP, "", nil, 0, a, b)
 }
 func FDiv(a, b *Term) *Term {
 	if r, ok := fpFold2("fp.div", a, b); ok {
 		return r
+	}
+	if b.Op == "fp" && b.FloatVal() == 1 {
+		return a
 	}
 	if Abstract {
 		return mk("uf", SFP, "fdiv", nil, 0, a, b)
@@ -460,11 +542,11 @@ func fcmp(op string, a, b *Term) *Term {
 	}
 	return mk(op, SBool, "", nil, 0, a, b)
 }
-func FLt(a, b *Term) *Term  { return fcmp("fp.lt", a, b) }
-func FLe(a, b *Term) *Term  { return fcmp("fp.leq", a, b) }
-func FGt(a, b *Term) *Term  { return fcmp("fp.lt", b, a) }
-func FGe(a, b *Term) *Term  { return fcmp("fp.leq", b, a) }
-func FEq(a, b *Term) *Term  { return fcmp("fp.eq", a, b) } // IEEE ==
+func FLt(a, b *Term) *Term { return fcmp("fp.lt", a, b) }
+func FLe(a, b *Term) *Term { return fcmp("fp.leq", a, b) }
+func FGt(a, b *Term) *Term { return fcmp("fp.lt", b, a) }
+func FGe(a, b *Term) *Term { return fcmp("fp.leq", b, a) }
+func FEq(a, b *Term) *Term { return fcmp("fp.eq", a, b) } // IEEE ==
 func FIsNaN(a *Term) *Term {
 	if a.Op == "fp" {
 		f := a.FloatVal()
@@ -638,4 +720,72 @@ func (p *Printer) args(t *Term) string {
 		sb.WriteString(p.Print(a))
 	}
 	return sb.String()
+}
+
+var (
+	fpMu   sync.Mutex
+	fpMemo = map[int]bool{}
+)
+
+// HasFP reports whether t contains a floating-point subterm.
+func HasFP(t *Term) bool {
+	fpMu.Lock()
+	v, ok := fpMemo[t.id]
+	fpMu.Unlock()
+	if ok {
+		return v
+	}
+	r := t.Sort == SFP
+	if !r {
+		for _, a := range t.Args {
+			if HasFP(a) {
+				r = true
+				break
+			}
+		}
+	}
+	fpMu.Lock()
+	fpMemo[t.id] = r
+	fpMu.Unlock()
+	return r
+}
+
+// SimplifyUnder rewrites the boolean structure of t assuming the atoms in known
+// (term id -> true) hold; negations of known atoms become false.
+func SimplifyUnder(t *Term, known map[int]bool) *Term {
+	if t.Sort != SBool {
+		return t
+	}
+	if known[t.id] {
+		return True
+	}
+	switch t.Op {
+	case "not":
+		if known[t.Args[0].id] {
+			return False
+		}
+		return Not(SimplifyUnder(t.Args[0], known))
+	case "and":
+		out := make([]*Term, len(t.Args))
+		for i, a := range t.Args {
+			out[i] = SimplifyUnder(a, known)
+		}
+		return And(out...)
+	case "or":
+		out := make([]*Term, len(t.Args))
+		for i, a := range t.Args {
+			out[i] = SimplifyUnder(a, known)
+		}
+		return Or(out...)
+	case "=":
+		if t.Args[0].Sort == SBool {
+			return Eq(SimplifyUnder(t.Args[0], known), SimplifyUnder(t.Args[1], known))
+		}
+	case "ite":
+		return Ite(SimplifyUnder(t.Args[0], known), SimplifyUnder(t.Args[1], known), SimplifyUnder(t.Args[2], known))
+	}
+	if n := Not(t); known[n.id] {
+		return False
+	}
+	return t
 }
